@@ -3,7 +3,7 @@ from ..poly import Poly
 from ..interp import Arr, diff_at_zero
 from ..algebra import snapshot, scribble
 from ..algebra import (CONFIGS, CDIM, cfg_name, run_obligation, run_tasks, record, ObFail, require_same, nterms, delta_vec,
-                       zero_hook, sym_config, make_edge)
+                       zero_hook, sym_config, make_edge, free_increment_columns, columns)
 
 LEVEL = "proof"
 
@@ -21,6 +21,10 @@ def edge_jacobian_obligation(cfg, k, unit=True):
             J = it.call_method(e, "calc_jacobians", [])
             if not isinstance(J, (list, tuple)) or len(J) != 2:
                 raise ObFail("calc_jacobians does not return one Jacobian per vertex")
+            amp = [ev for ev in it.events if ev[0] == "amplification"]
+            if amp:
+                raise ObFail("%s: the Jacobian is not computed analytically -- %s at %s (a difference quotient: exact only in exact "
+                             "arithmetic, its rounding error grows with the size of the coordinates)" % (cfg_name(cfg), amp[0][1], amp[0][2]))
             d = delta_vec(tk)
             moved = it.call_method((p1, p2)[k], "__iadd__", [d])
             e2 = make_edge(it, cfg, moved if k == 0 else p1, moved if k == 1 else p2, z, off)
@@ -31,9 +35,14 @@ def edge_jacobian_obligation(cfg, k, unit=True):
             got = J[k]
             if not isinstance(got, Arr):
                 raise ObFail("Jacobian %d is %r" % (k, got))
+            free = free_increment_columns(names)
+            if len(free) < len(names):
+                if not free or got.ndim != 2 or got.shape != exp.shape:
+                    return dict(mode="the increment is zero on this path (value-level continuity is C02 / C09)")
+                got, exp = columns(got, free), columns(exp, free)
             require_same(got, exp, "%s: Jacobian w.r.t. vertex %d is not d error / d(boxplus increment) at 0" % (cfg_name(cfg), k))
             return dict(shape=list(got.shape), terms=nterms(got), mode="manifold" if unit else "pure")
-        return run_obligation(pkg, fn, hook=zero_hook(names))
+        return run_obligation(pkg, fn, hook=zero_hook(names, generic=True))
     return run
 
 
@@ -67,9 +76,14 @@ def stale_state_obligation(cfg):
         for v_ in ga(e, "vertices"):
             sa(v_, "fixed", False)
         q1, q2, zz, oo = sym_config(cfg, unit=True, names=("q1", "q2", "zz", "oo"))
-        for old, new in ((p1, q1), (p2, q2), (z, zz), (off, oo)):
-            if old is not None:
-                old.data[:] = list(new.data)          # in-place overwrite, object identity preserved
+        # in-place overwrite of the objects the edge and its vertices hold *now* (object identity preserved)
+        vs_ = ga(e, "vertices")
+        held = [(ga(vs_[0], "pose"), q1), (ga(vs_[1], "pose"), q2), (ga(e, "estimate", None), zz)]
+        if off is not None:
+            held.append((ga(e, "offset", None), oo))
+        for old, new in held:
+            if old is not None and new is not None:
+                old.data[:] = list(new.data)
         J2 = it.call_method(e, "calc_jacobians", [])       # Jacobians first: nothing may rely on a preceding calc_error
         err2 = it.call_method(e, "calc_error", [])
         fresh = make_edge(it, cfg, q1, q2, zz, oo)
